@@ -99,6 +99,10 @@ def check_table(sk, lang, tier, found, stats):
     U = universe.enumerate_types(tb, sk, atoms, 1)
     if tier == 'thorough':
         U = list(dict.fromkeys(U + universe.enumerate_types(tb, sk, atoms[:2] + atoms[3:4], 2, stars=False, cap=300)))
+    else:
+        # nested plain instantiations (a generic subclass in a nested position)
+        U = list(dict.fromkeys(U + universe.enumerate_types(tb, sk, [universe.C('Integer'), universe.C('P')], 2,
+                                                            projections=False, stars=False, cap=120)))
     pats = patterns_for(tb, sk)
     for label, pterm in pats:
         vars_ = {}
